@@ -61,6 +61,9 @@ def applyMatcherSplit (a : MatcherArgs) (candLIdx candRIdx : Nat)
     if lv.isMissing || rv.isMissing then
       pure (if a.allowMissing then some (mk .missing) else none)
     else
+      -- no token cache: `tokenizer.tokenize(l_value)`, `tokenizer.tokenize(r_value)` — TypeError for a non-`str`
+      -- (with the cache the tokens were produced, and non-strings rejected, by `generate_tokens`)
+      if tok.isSome && cache.isNone && !(lv.isStr && rv.isStr) then throw PyErr.typeErr else
       let (la, ra) : SimArg × SimArg :=
         match tok with
         | some tk =>
@@ -71,6 +74,20 @@ def applyMatcherSplit (a : MatcherArgs) (candLIdx candRIdx : Nat)
       let s := sim la ra
       pure (if compFn a.compOp s a.threshold then some (mk (scoreCell s)) else none))
   return rows.filterMap id
+
+/-- the optional token cache of `apply_matcher` (tokenizer given and `len(ltable) + len(rtable) < 2 * len(candset)`):
+    `generate_tokens` applies `tokenizer.tokenize` to EVERY present value of the two columns (referenced by the
+    candset or not), before any candidate row is looked at — TypeError for a non-`str` -/
+def tokenCache (tokFn : Option (String → List Tok)) (useCache : Bool) (lRows rRows : List Row)
+    (lKeyIdx lAttrIdx rKeyIdx rAttrIdx : Nat) : Except PyErr (Option (List (Cell × List Tok) × List (Cell × List Tok))) :=
+  match tokFn with
+  | some tk =>
+    if useCache then
+      if joinCellsOk lRows lAttrIdx && joinCellsOk rRows rAttrIdx then
+        .ok (some (generateTokens lRows lKeyIdx lAttrIdx tk, generateTokens rRows rKeyIdx rAttrIdx tk))
+      else .error .typeErr
+    else .ok none
+  | none => .ok none
 
 def applyMatcher (a : MatcherArgs) (t : Option TokObj) (toks : TokFn) (sim : SimArg → SimArg → PyV) (cpu : Int) :
     Except PyErr Frame := do
@@ -106,12 +123,8 @@ def applyMatcher (a : MatcherArgs) (t : Option TokObj) (toks : TokFn) (sim : Sim
                       rOut := findOutputAttributeIndices rProj rOut,
                       hasOut := lOut.isSome || rOut.isSome }
   let tokFn : Option (String → List Tok) := t.map (fun tk => toks tk.returnSet)
-  let cache := match tokFn with
-    | some tk =>
-      if (l.rows.length + r.rows.length : Nat) < c.rows.length * 2 then
-        some (generateTokens lRows lKeyIdx lAttrIdx tk, generateTokens rRows rKeyIdx rAttrIdx tk)
-      else none
-    | none => none
+  let cache ← tokenCache tokFn (decide ((l.rows.length + r.rows.length : Nat) < c.rows.length * 2))
+                lRows rRows lKeyIdx lAttrIdx rKeyIdx rAttrIdx
   let header := "_id" :: (getOutputHeader a.lKey a.rKey lOut rOut a.lPre a.rPre ++
                   (if a.outSimScore then ["_sim_score"] else []))
   let chunks ← (chunksFor c.rows a.nJobs cpu).mapM (fun ch => do
@@ -135,8 +148,11 @@ structure CandsetArgs where
   rAttr : String
   nJobs : Int := 1
 
-/-- `Filter.filter_candset` for any filter given as its `filter_pair` -/
-def filterCandset (a : CandsetArgs) (fp : Cell → Cell → Bool) (cpu : Int) : Except PyErr Frame := do
+/-- `Filter.filter_candset` for any filter given as its `filter_pair` — a Python call that may raise
+    (`filterPairPy`, `overlapFilterPairPy`: TypeError when a value handed to the tokenizer is not a `str`);
+    the first exception in candset order (KeyError for an unknown key, or the one of `filter_pair`)
+    fails the call -/
+def filterCandset (a : CandsetArgs) (fp : Cell → Cell → Except PyErr Bool) (cpu : Int) : Except PyErr Frame := do
   let c ← validateInputTable a.candset
   validateAttr a.candLKey c
   validateAttr a.candRKey c
@@ -164,7 +180,8 @@ def filterCandset (a : CandsetArgs) (fp : Cell → Cell → Bool) (cpu : Int) : 
     ch.filterMapM (fun ((cr, lab) : Row × Cell) => do
       let lRow ← match Dict.get? lDict (cr.cell li) with | some x => pure x | none => throw PyErr.other
       let rRow ← match Dict.get? rDict (cr.cell ri) with | some x => pure x | none => throw PyErr.other
-      pure (if !(fp (lRow.cell (lProj.idxOf a.lAttr)) (rRow.cell (rProj.idxOf a.rAttr))) then some (cr, lab) else none)))
+      let drop ← fp (lRow.cell (lProj.idxOf a.lAttr)) (rRow.cell (rProj.idxOf a.rAttr))
+      pure (if !drop then some (cr, lab) else none)))
   let kept := chunks.flatten
   return { c with index := kept.map (·.2), rows := kept.map (·.1) }
 
